@@ -66,7 +66,7 @@ func vfC17Gen(rt *rapid.T) vfC17Case {
 			return vfLOp{Op: "other_process", Slot: slot}
 		}
 	})
-	return vfC17Case{Ops: rapid.SliceOfN(opGen, 3, 40).Draw(rt, "ops")}
+	return vfC17Case{Ops: vfListOf(rt, "ops", opGen, 3, 40)}
 }
 
 func vfDirSnapshot(dir string) string {
@@ -155,6 +155,7 @@ func vfAsNobody(f func()) (ok bool) {
 }
 
 func vfC17Run(c vfC17Case, ctx *vfCtx) *vfViolation {
+	ctx.HistoryLen("history", len(c.Ops))
 	root, err := os.MkdirTemp(vfEnv("VERIF_SCRATCH"), "c17-")
 	if err != nil {
 		return vfFail("mkdir: %v", err)
